@@ -221,10 +221,18 @@ def run(rep):
     if wrongly or len(cans) not in a:
         raise tlc.MachineryError(f"canary failure: accepted {wrongly}; control accepted={len(cans) in a}")
     rep.extra["canaries_rejected"] = [c[0] for c in cans]
+    # the line machines of the two text containers (TextTables.tla), this property's clauses
+    from harness.props import _texttables
+
+    _texttables.run(rep, PROP)
 
 
 def replay(rep, case):
     c = case["case"]
+    if c.get("texttable"):
+        from harness.props import _texttables
+
+        return _texttables.replay(rep, PROP, c)
     if c.get("runs"):
         o = _run_runs(c["job"])
         acc, info = tlc.validate_traces("Trace_Workbook", _cfg(60 if c["job"]["dim"] == "rows" else 20), [o["trace"]], shards=1, tag="replay")
